@@ -315,6 +315,8 @@ class Evaluator:
                         return Term.const(Fraction(repr(v)))
                     if isinstance(v, Term):
                         return v
+                    if isinstance(v, (str, bytes)):
+                        return Term.atom(repr(v))  # a module-level text constant is its literal
                 except KeyError:
                     pass
             return Term.atom(node.id)
